@@ -283,6 +283,23 @@ class Exec(EvalMixin, CallMixin):
         return out + [(s, "next") for s in live]
 
     def stmt(self, node, st):
+        ab = self.con.get("abstract_stmts")
+        if ab and isinstance(node, (ast.Assign, ast.AnnAssign)):
+            text = ast.unparse(node)
+            hit = [a for a in ab if text.startswith(a)]
+            if hit:
+                # an assignment the sidecar abstracts (reported as an assumption): its targets get arbitrary values of their
+                # declared kinds; its right-hand side is assumed to have no effect on the heap
+                self.abstracted.append("statement `%s...` of %s abstracted: %s" % (hit[0][:50], self.key, ab[hit[0]]))
+                self.ghost_sites_hit.add("abstract:" + hit[0])
+                tgts = node.targets if isinstance(node, ast.Assign) else [node.target]
+                for t in tgts:
+                    for nm in [n for n in ast.walk(t) if isinstance(n, ast.Name)]:
+                        k_ = self.decl_kinds.get(nm.id, ANY)
+                        t_ = fresh("abs_" + nm.id, V)
+                        st.env[nm.id] = SV(t_, k_)
+                        assume_typed(st, t_, k_)
+                return [(st, "next")]
         m = getattr(self, "st_" + type(node).__name__, None)
         if m is None:
             raise OutOfSubset("statement %s at line %s" % (type(node).__name__, node.lineno))
